@@ -1,5 +1,5 @@
 CONSTANTS
-Mutant = 1
+Mutant = 2
 Big = 0
 INIT Init
 NEXT Next
